@@ -581,7 +581,12 @@ func (c *evalCtx) evalCall(e *Expr) EV {
 			return c.fail("unknown type in %s", e)
 		}
 		x := c.int(arg(0), e)
-		return EV{V: scalar(p.And(p.Ne(x, p.Int(0)), p.Eq(p.App("dtype", SInt, x), p.Int(int64(vc.E.typeTag(t))))))}
+		r := p.And(p.Ne(x, p.Int(0)), p.Eq(p.App("dtype", SInt, x), p.Int(int64(vc.E.typeTag(t)))))
+		if _, isPtr := t.Underlying().(*types.Pointer); isPtr {
+			// the interface holds a non-nil pointer of that type
+			r = p.And(r, p.Ne(x, p.App("typednil$"+sanitize(typeKey(t)), SInt)))
+		}
+		return EV{V: scalar(r)}
 	case "as":
 		// as(x, T): the interface/pointer value x viewed with static type T
 		if len(e.Args) != 2 {
@@ -681,6 +686,9 @@ func (c *evalCtx) resolveType(e *Expr) (types.Type, bool) {
 			if tn, ok := c.pkg.Scope().Lookup(e.Name).(*types.TypeName); ok {
 				return tn.Type(), true
 			}
+		}
+		if t, ok := c.vc.E.resolveTypeName("", e.Name); ok {
+			return t, true
 		}
 	case "call":
 		if e.Name == "ptr" && len(e.Args) == 1 {
